@@ -442,11 +442,17 @@ Definition core_sig (s : core) : Z * Z * Z :=
   | CClosed => (-1, -1, -1)
   | COpen o => (dflag o, nflags o, (if old o then 4 else 0) + (if nrecv o then 2 else 0) + (if hasrec o then 1 else 0))
   end.
-Fixpoint run_codes (st : state) (cs : list nat) : list (option (Z * (Z * Z * Z))) :=
+(* per step: model return code, specification return code (before the step), core signature after the step,
+   number of pending requests and attached-buffer flag after the step *)
+Record obs := mkObs { o_rc : Z; o_spec : Z; o_sig : Z * Z * Z; o_nreq : Z; o_abuf : Z }.
+Fixpoint run_codes (st : state) (cs : list nat) : list (option obs) :=
   match cs with
   | [] => []
   | n :: r => match call_of_code n with
               | None => None :: run_codes st r
-              | Some c => let '(st', rc) := step st c in Some (rc, core_sig (co st')) :: run_codes st' r
+              | Some c => let '(st', rc) := step st c in
+                          Some (mkObs rc (spec_err (co st) (view_aux (ax st)) c) (core_sig (co st'))
+                                      (Z.of_nat (a_put (ax st') + a_get (ax st') + a_bput (ax st')))
+                                      (if a_abuf (ax st') then 1 else 0)) :: run_codes st' r
               end
   end.
